@@ -1,6 +1,8 @@
 use crate::util::{Opts, Run};
 
 #[cfg(feature = "hooks")]
+pub mod dec;
+#[cfg(feature = "hooks")]
 pub mod spec;
 #[cfg(feature = "hooks")]
 pub mod tables;
@@ -11,6 +13,8 @@ pub fn dispatch(engine: &str, opts: &Opts) -> Option<Run> {
         "tables" => Some(tables::run(opts)),
         #[cfg(feature = "hooks")]
         "spec" => Some(spec::run(opts)),
+        #[cfg(feature = "hooks")]
+        "dec" => Some(dec::run(opts)),
         _ => None,
     }
 }
